@@ -1233,7 +1233,7 @@ pub fn run(a: &Args) -> i32 {
     let budget_s = if quick { 36.0 } else { 470.0 };
     // shrinking runs on this thread: only early in the run, so that the wall budget holds
     let shrink_until_s = if quick { 22.0 } else { 400.0 };
-    let max_hist = if cfg!(miri) { 0 } else if quick { 150 } else { 2500 };
+    let max_hist = if cfg!(miri) { 0 } else if quick { 400 } else { 4000 };
     let max_shrinks = if quick { 3 } else { 60 };
     let scratch = Scratch::new("c04");
     // every history gets its own generator seeded from the C04 stream; workers only overlap the fsync waits
